@@ -59,13 +59,15 @@ def encAll (cs : List Chunk) : Bytes := (cs.map Chunk.enc).flatten
 def effSize (ds : Option Ds64) (c : Chunk) : Nat := hdrSize ds c.id c.szField
 
 /-- well-formed chunk: four-character id accepted by `CHUNK_ID_RE`, size field fits 32 bits and (after
-ds64 substitution) equals the body length, one pad byte exactly after an odd-sized body -/
+ds64 substitution) equals the body length, one pad byte exactly after an odd-sized body, and the header is
+not the unset `data` size of a plain RIFF file (`isPlaceholder`) -/
 structure Chunk.OK (ds : Option Ds64) (c : Chunk) : Prop where
   idLen : c.id.length = 4
   idValid : validId c.id = true
   szLt : c.szField < 2 ^ 32
   size : effSize ds c = c.body.length
   padLen : c.padB.length = c.body.length % 2
+  noPlaceholder : isPlaceholder ds c.id c.szField = false
 
 /-- the reader's chunk table after walking `cs` laid out from offset `p`, starting from table `t` -/
 def walkTable : Nat → List Chunk → Table → Table
@@ -109,7 +111,7 @@ theorem walk_chunks (ds : Option Ds64) (cs : List Chunk) (hok : ∀ c ∈ cs, c.
       have h5 : (c.id ++ le 4 c.szField).drop 4 = le 4 c.szField := by
         rw [← hc.idLen]; simp
       have hsz := hc.size
-      simp only [readChunkHeader, hd, h4, h5, hc.idValid, fromLE_le4 _ hc.szLt]
+      simp only [readChunkHeader, hd, h4, h5, hc.idValid, fromLE_le4 _ hc.szLt, hc.noPlaceholder]
       simp [le_length, hc.idLen]
       exact hsz
     rw [readChunks, hh]
@@ -146,7 +148,7 @@ theorem walk_chunks_then (ds : Option Ds64) (cs : List Chunk) (hok : ∀ c ∈ c
       have h5 : (c.id ++ le 4 c.szField).drop 4 = le 4 c.szField := by
         rw [← hc.idLen]; simp
       have hsz := hc.size
-      simp only [readChunkHeader, hd, h4, h5, hc.idValid, fromLE_le4 _ hc.szLt]
+      simp only [readChunkHeader, hd, h4, h5, hc.idValid, fromLE_le4 _ hc.szLt, hc.noPlaceholder]
       simp [le_length, hc.idLen]
       exact hsz
     have hfu : (c :: cs).length + fuel = (cs.length + fuel) + 1 := by simp; omega
